@@ -106,6 +106,11 @@ def handler(case):
             out = [l.name for l in s.lines if l.connected]
             if out:
                 viols.append(("sections.disconnect", f"{n.name}: section {[l.name for l in s.lines]} taken out of service but {out} still in service"))
+            # putting it back the way the controllers do: the breaker (if the section's disconnect opened it)
+            # is reclosed by the controller, then the section is reconnected
+            for sw in s.switches:
+                if sw in ps.circuitbreakers and sw.is_open:
+                    sw.close()
             s.connect_manually()
             s1 = state()
             if s1 != s0:
